@@ -18,12 +18,14 @@ CONSTANTS
   AllowClose = %(close)s
   EpochBeforeResume = %(ebr)s
   HalfBroken = %(half)s
+  HandlerCloses = %(hcl)s
+  CloseJoinsMain = %(cjm)s
 %(view)s
 INVARIANTS %(invs)s
 %(constraint)s
 CHECK_DEADLOCK FALSE
 """
-INVS = "TokenPerDial NoStreamDetached CallersSurvive NotificationsOnce NoPanic NoDialAfterClose NoCallerParkedWhenClosed NoSupervisorParkedWhenClosed SilentAfterDisconnect"
+INVS = "TokenPerDial NoStreamDetached CallersSurvive NotificationsOnce NoPanic NoDialAfterClose NoCallerParkedWhenClosed NoSupervisorParkedWhenClosed SilentAfterDisconnect NoSelfJoin"
 NG = 17  # StreamNotFound
 
 
@@ -36,11 +38,11 @@ def q(xs):
 
 
 def write_cfg(name, streams=("S1", "S2"), callers=("P1",), faults=1, dialfails=1, resumeng=1, fixed=True, close=True, view=True,
-              invs=INVS, gen=False, epoch_before_resume=True, half=False):
+              invs=INVS, gen=False, epoch_before_resume=True, half=False, handler_closes=False, close_joins_main=False):
     with open(os.path.join(SPEC, name), "w") as f:
         f.write(CFG % dict(streams=q(streams), callers=q(callers), faults=faults, dialfails=dialfails, resumeng=resumeng,
                            epoch=b(fixed), hook=b(fixed), guard=b(fixed), close=b(close), view="VIEW View" if view else "",
-                           invs=invs, constraint="CONSTRAINT GenPrint" if gen else "", ebr=b(epoch_before_resume), half=b(half)))
+                           invs=invs, constraint="CONSTRAINT GenPrint" if gen else "", ebr=b(epoch_before_resume), half=b(half), hcl=b(handler_closes), cjm=b(close_joins_main)))
     return name
 
 
